@@ -856,3 +856,309 @@ Section ReaderInv.
     rewrite Forall_forall in Ho. apply raw_ok_rooted. now apply Ho.
   Qed.
 End ReaderInv.
+
+(* ================================================================== the kernel and the file system *)
+Definition kqueue_ok (k : kst) : Prop := Forall kraw_ok (k_queue k).
+
+Lemma kpush_ok q e : Forall kraw_ok q -> kraw_ok e -> Forall kraw_ok (kpush q e).
+Proof.
+  intros Hq He. unfold kpush.
+  assert (Happ : Forall kraw_ok (q ++ [e])) by (apply Forall_app; split; [exact Hq | constructor; [exact He | constructor]]).
+  destruct (rev q) as [|l ?]; [exact Happ|]. destruct (kraw_eqb l e); [exact Hq | exact Happ].
+Qed.
+
+(* what a notification may carry: a valid entry name, or no name with a mask that never reports the parent *)
+Definition note_ok (bit : N) (isdir : bool) (name : bytes) : Prop :=
+  valid_name name = true \/ (name = [] /\ noparent (if isdir then N.lor bit IN_ISDIR else bit) = true).
+
+Lemma knotify_ok k ino bit isdir cookie name :
+  kqueue_ok k -> note_ok bit isdir name -> kqueue_ok (knotify k ino bit isdir cookie name).
+Proof.
+  intros Hk Hn. unfold knotify. destruct (watch_of_ino k ino) as [w|]; [|exact Hk].
+  destruct (N.eqb (N.land bit (kw_mask w)) 0); [exact Hk|].
+  unfold kqueue_ok. cbn [k_queue]. apply kpush_ok; [exact Hk|]. exact Hn.
+Qed.
+
+Lemma kgone_ok k ino af : kqueue_ok k -> kqueue_ok (kgone k ino af).
+Proof.
+  intros Hk. unfold kgone. destruct (watch_of_ino k ino) as [w|]; [|exact Hk].
+  unfold kqueue_ok. cbn [k_queue]. apply kpush_ok.
+  - apply knotify_ok; [|right; split; [reflexivity | vm_compute; reflexivity]].
+    destruct af; [|exact Hk]. apply knotify_ok; [exact Hk|]. right. split; [reflexivity | vm_compute; reflexivity].
+  - right. split; [reflexivity | vm_compute; reflexivity].
+Qed.
+
+(* every record kernel_op appends has an empty name (IN_ATTRIB|IN_ISDIR, IN_DELETE_SELF, IN_IGNORED about the
+   directory itself) or the basename of an operation path *)
+Theorem kernel_op_ok k t o : op_names_ok o -> kqueue_ok k -> kqueue_ok (kernel_op k t o).
+Proof.
+  intros Ho Hk. destruct o; cbn [kernel_op op_names_ok] in *.
+  - repeat apply knotify_ok; try exact Hk; left; exact Ho.
+  - repeat apply knotify_ok; try exact Hk; left; exact Ho.
+  - destruct (fisdir p t).
+    + apply knotify_ok; [apply knotify_ok; [exact Hk | left; exact Ho]|].
+      right. split; [reflexivity | vm_compute; reflexivity].
+    + apply knotify_ok; [exact Hk | left; exact Ho].
+  - apply knotify_ok; [exact Hk | left; exact Ho].
+  - apply knotify_ok; [exact Hk | left; exact Ho].
+  - apply knotify_ok; [now apply kgone_ok | left; exact Ho].
+  - destruct Ho as [Hp Hq].
+    assert (H2 : kqueue_ok
+      (knotify (knotify {| k_watches := k_watches k; k_next_wd := k_next_wd k; k_queue := k_queue k;
+                           k_next_cookie := k_next_cookie k + 1 |}
+                        (ino_of t (dirname p)) IN_MOVED_FROM (fisdir p t) (k_next_cookie k) (basename p))
+               (ino_of t (dirname q)) IN_MOVED_TO (fisdir p t) (k_next_cookie k) (basename q))).
+    { apply knotify_ok; [apply knotify_ok; [exact Hk | left; exact Hp] | left; exact Hq]. }
+    destruct (fisdir q t); [now apply kgone_ok | exact H2].
+Qed.
+
+Lemma frename_names p q t :
+  fs_names_ok t -> valid_name (basename q) = true -> fs_names_ok (frename p q t).
+Proof.
+  intros Ht Hq e He. unfold frename in He. apply in_map_iff in He as [x [<- Hx]].
+  destruct (beqb (f_path x) p); [exact Hq|].
+  destruct (under p (f_path x)) eqn:Eu; [|now apply Ht].
+  cbn [f_path]. unfold under in Eu. apply starts_spec in Eu as [r Er].
+  rewrite <- app_assoc in Er. cbn [app] in Er.
+  specialize (Ht x Hx). rewrite Er in *. rewrite skipn_app_length.
+  now rewrite (basename_app_indep q p r).
+Qed.
+
+Lemma fremove_names p t : fs_names_ok t -> fs_names_ok (fremove p t).
+Proof. intros Ht e He. unfold fremove in He. apply filter_In in He as [He _]. now apply Ht. Qed.
+
+Theorem apply_op_names w o w' :
+  fs_names_ok (w_fs w) -> op_names_ok o -> apply_op w o = Some w' -> fs_names_ok (w_fs w').
+Proof.
+  intros Hw Ho H. destruct o; cbn [apply_op op_names_ok] in *.
+  - destruct (fisdir (dirname p) (w_fs w) && negb (fexists p (w_fs w))); [|discriminate].
+    inversion H; subst; cbn. intros e He. apply in_app_iff in He as [He|[<-|[]]]; [now apply Hw | exact Ho].
+  - destruct (flookup p (w_fs w)) as [e|]; [|discriminate]. destruct (f_dir e); [discriminate|]. now inversion H; subst.
+  - destruct (fexists p (w_fs w)); [|discriminate]. now inversion H; subst.
+  - destruct (flookup p (w_fs w)) as [e|]; [|discriminate]. destruct (f_dir e); [discriminate|].
+    inversion H; subst; cbn. now apply fremove_names.
+  - destruct (fisdir (dirname p) (w_fs w) && negb (fexists p (w_fs w))); [|discriminate].
+    inversion H; subst; cbn. intros e He. apply in_app_iff in He as [He|[<-|[]]]; [now apply Hw | exact Ho].
+  - destruct (flookup p (w_fs w)) as [e|]; [|discriminate].
+    destruct (f_dir e && negb (has_children p (w_fs w))); [|discriminate].
+    inversion H; subst; cbn. now apply fremove_names.
+  - destruct Ho as [Hp Hq]. destruct (flookup p (w_fs w)) as [e|]; [|discriminate].
+    destruct (beqb p q || under p q || negb (fisdir (dirname q) (w_fs w))); [discriminate|].
+    destruct (flookup q (w_fs w)) as [v|].
+    + destruct (f_dir e).
+      * destruct (f_dir v && negb (has_children q (w_fs w))); [|discriminate].
+        inversion H; subst; cbn. apply frename_names; [now apply fremove_names | exact Hq].
+      * destruct (f_dir v); [discriminate|].
+        inversion H; subst; cbn. apply frename_names; [now apply fremove_names | exact Hq].
+    + inversion H; subst; cbn. now apply frename_names.
+Qed.
+
+(* ---------------------------------------------------------------- the reader never touches the kernel queue *)
+Section ReaderQueue.
+  Variable C : cfg.
+
+  Lemma kadd_watch_queue k t p m k' wd : kadd_watch k t p m = Some (k', wd) -> k_queue k' = k_queue k.
+  Proof.
+    unfold kadd_watch. destruct (flookup p t) as [e|]; [|discriminate].
+    destruct (watch_of_ino k (f_ino e)); intros H; inversion H; subst; reflexivity.
+  Qed.
+
+  Lemma add_watch_queue r k t p r' k' wd : add_watch C r k t p = Some (r', k', wd) -> k_queue k' = k_queue k.
+  Proof.
+    unfold add_watch. destruct (mem_nat (calls r) (c_faults C)); [discriminate|].
+    destruct (kadd_watch k t p (c_mask C)) as [[k1 w1]|] eqn:E; [|discriminate].
+    intros H. inversion H; subst. eapply kadd_watch_queue; eauto.
+  Qed.
+
+  Lemma sim_dirs_queue t rt : forall ds r k acc r' k' acc',
+    sim_dirs C r k t rt ds acc = (r', k', acc') -> k_queue k' = k_queue k.
+  Proof.
+    induction ds as [|d ds IH]; intros r k acc r' k' acc' H; cbn [sim_dirs] in H.
+    - now inversion H; subst.
+    - destruct (add_watch C r k t (join rt d)) as [[[r1 k1] wd]|] eqn:E.
+      + apply IH in H. apply add_watch_queue in E. congruence.
+      + now apply IH in H.
+  Qed.
+
+  Lemma simulate_queue t : forall w r k acc r' k' acc',
+    simulate C r k t w acc = Done (r', k', acc') -> k_queue k' = k_queue k.
+  Proof.
+    induction w as [|[[rt ds] fl] w IH]; intros r k acc r' k' acc' H; cbn [simulate] in H.
+    - now inversion H; subst.
+    - destruct (sim_dirs C r k t rt ds acc) as [[r1 k1] acc1] eqn:E1.
+      destruct (sim_files C r1 rt fl acc1) as [acc2|]; [|discriminate].
+      apply IH in H. apply sim_dirs_queue in E1. congruence.
+  Qed.
+
+  Lemma add_dirs_queue t : forall ps r k r' k', add_dirs C r k t ps = (r', k') -> k_queue k' = k_queue k.
+  Proof.
+    induction ps as [|p ps IH]; intros r k r' k' H; cbn [add_dirs] in H.
+    - now inversion H; subst.
+    - destruct (add_watch C r k t p) as [[[r1 k1] wd]|] eqn:E.
+      + apply IH in H. apply add_watch_queue in E. congruence.
+      + now inversion H; subst.
+  Qed.
+
+  Lemma read_one_queue t r k acc e r' k' acc' :
+    read_one C t (r, k, acc) e = Done (r', k', acc') -> k_queue k' = k_queue k.
+  Proof.
+    intros H. unfold read_one in H.
+    destruct (alookup N.eqb (k_wd e) (pfw r)) as [wd_path|]; [|discriminate].
+    match type of H with context [match ?X with pair _ _ => _ end] => destruct X as [[r1 k1] ev1] eqn:EX end.
+    assert (H1 : k_queue k1 = k_queue k).
+    { repeat match type of EX with
+             | (if ?b then _ else _) = _ => destruct b
+             | match ?x with Some _ => _ | None => _ end = _ => destruct x
+             | (let '(_, _) := ?X in _) = _ => let E := fresh "E" in destruct X eqn:E; apply add_dirs_queue in E
+             end; inversion EX; subst; congruence. }
+    clear EX.
+    match type of H with
+    | context [match ?X with Done _ => _ | Crash s => Crash s end] => destruct X as [r2|]; [|discriminate]
+    end.
+    destruct (c_recursive C && is_directory (k_mask e) && is_create (k_mask e)).
+    - destruct (add_watch C r2 k1 t (r_path ev1)) as [[[r3 k3] wd3]|] eqn:Eaw.
+      + apply simulate_queue in H. apply add_watch_queue in Eaw. congruence.
+      + inversion H; subst. exact H1.
+    - inversion H; subst. exact H1.
+  Qed.
+
+  Lemma read_batch_queue t : forall b r k acc r' k' acc',
+    read_batch C t (r, k, acc) b = Done (r', k', acc') -> k_queue k' = k_queue k.
+  Proof.
+    induction b as [|e b IH]; intros r k acc r' k' acc' H; cbn [read_batch] in H.
+    - now inversion H; subst.
+    - destruct (read_one C t (r, k, acc) e) as [[[r1 k1] acc1]|] eqn:E; [|discriminate].
+      apply IH in H. apply read_one_queue in E. congruence.
+  Qed.
+End ReaderQueue.
+
+(* ================================================================== the pipeline *)
+Require Import WD.Model.DelayQueue WD.Model.Grouping WD.Model.Pipeline.
+
+Lemma Forall_firstn' {A} (Q : A -> Prop) n : forall l, Forall Q l -> Forall Q (firstn n l).
+Proof. induction n as [|n IH]; intros [|x l] H; cbn; try constructor; inversion H; subst; auto. Qed.
+
+Lemma Forall_skipn' {A} (Q : A -> Prop) n : forall l, Forall Q l -> Forall Q (skipn n l).
+Proof. induction n as [|n IH]; intros [|x l] H; cbn; try assumption; inversion H; subst; auto. Qed.
+
+Lemma number_in C : forall l n a b i x, number C n l = (a, b) -> In (i, x) b -> In x l.
+Proof.
+  induction l as [|e l IH]; intros n a b i x H Hin; cbn [number] in H.
+  - inversion H; subst. contradiction.
+  - destruct (number C (n + 1) l) as [a' b'] eqn:E. inversion H; subst.
+    destruct Hin as [Hin|Hin]; [inversion Hin; subst; left; reflexivity | right; eapply IH; eauto].
+Qed.
+
+Lemma item_to_emit_raws tbl it eit :
+  item_to_emit tbl it = Some eit -> forall x, In x (item_raws eit) -> exists i, In (i, x) tbl.
+Proof.
+  unfold item_to_emit, raw_of. destruct it as [e|f t].
+  - destruct (alookup N.eqb (n_id e) tbl) as [r|] eqn:E; [|discriminate]. intros H; inversion H; subst.
+    intros x [<-|[]]. apply alookup_in in E as [i [Hin _]]. eauto.
+  - destruct (alookup N.eqb (n_id f) tbl) as [a|] eqn:E1; [|discriminate].
+    destruct (alookup N.eqb (n_id t) tbl) as [b|] eqn:E2; [|discriminate]. intros H; inversion H; subst.
+    intros x [<-|[<-|[]]]; [apply alookup_in in E1 as [i [Hin _]] | apply alookup_in in E2 as [i [Hin _]]]; eauto.
+Qed.
+
+Section PipeInv.
+  Variable P : pcfg.
+  Hypothesis Hne : c_root (pc_reader P) <> [].
+  Hypothesis Hsep : last_is_sep (c_root (pc_reader P)) = false.
+  Notation root := (c_root (pc_reader P)).
+
+  (* what C19 allows of a delivered event: both paths empty or rooted; the one event outside the statement is
+     DirModifiedEvent(dirname(root)) *)
+  Definition out_ok (e : nevent) : Prop := ev_ok root e \/ e = parent_modified root.
+
+  Record PInv (s : pstate) : Prop := mkPInv {
+    pv_fs : fs_names_ok (w_fs (p_world s));
+    pv_q : kqueue_ok (p_k s);
+    pv_r : PathInv (pc_reader P) (p_r s);
+    pv_tbl : forall i x, In (i, x) (p_tbl s) -> raw_ok root x;
+    pv_out : forall e, In e (p_out s) -> out_ok e }.
+
+  Lemma pinit_inv w s : fs_names_ok (w_fs w) -> pinit P w = Some s -> PInv s.
+  Proof.
+    intros Hw H. unfold pinit in H.
+    destruct (construct (pc_reader P) kinit (w_fs w)) as [[r k]|] eqn:E; [|discriminate].
+    inversion H; subst; clear H. constructor; cbn.
+    - exact Hw.
+    - unfold kqueue_ok.
+      assert (Hq : k_queue k = k_queue kinit).
+      { clear -E. unfold construct in E. destruct (fisdir _ _); [|discriminate].
+        destruct (add_watch _ rinit0 kinit (w_fs w) _) as [[[r1 k1] wd]|] eqn:E1; [|discriminate].
+        apply add_watch_queue in E1. destruct (c_recursive _); [|inversion E; subst; exact E1].
+        rewrite <- E1. clear E1. revert r1 k1 E. generalize (walk_dirs (w_fs w) (c_root (pc_reader P))) as ps.
+        induction ps as [|p ps IH]; intros r1 k1 E; [now inversion E; subst|].
+        destruct (add_watch _ r1 k1 (w_fs w) p) as [[[r2 k2] wd2]|] eqn:E2; [|discriminate].
+        apply IH in E. apply add_watch_queue in E2. congruence. }
+      rewrite Hq. constructor.
+    - eapply construct_inv; eauto.
+    - intros ? ? [].
+    - intros ? [].
+  Qed.
+
+  Lemma pstep_inv s a s' ob :
+    PInv s -> (forall o, a = AOp o -> op_names_ok o) -> pstep P s a = Done (s', ob) -> PInv s'.
+  Proof.
+    intros [I1 I2 I3 I4 I5] Ha H. destruct a as [o | n | | d]; cbn [pstep] in H.
+    - destruct (apply_op (p_world s) o) as [w'|] eqn:E; inversion H; subst; clear H; [|constructor; assumption].
+      constructor; cbn; try assumption.
+      + eapply apply_op_names; eauto.
+      + apply kernel_op_ok; auto.
+    - destruct (deleted_self (snd (p_buf s))); [inversion H; subst; constructor; assumption|].
+      match type of H with context [read_batch ?c ?t ?st ?b] => destruct (read_batch c t st b) as [[[r' k'] evs]|] eqn:E end;
+        [|discriminate].
+      assert (Hb : Forall kraw_ok (firstn n (k_queue (p_k s)))) by now apply Forall_firstn'.
+      destruct (read_batch_inv _ Hne Hsep _ _ _ _ _ _ _ _ I1 I3 (Forall_nil _) Hb E) as [Hr' Hevs].
+      apply read_batch_queue in E. cbn [k_queue] in E.
+      destruct (number (pc_reader P) (p_next s) evs) as [nevs tbl] eqn:En.
+      destruct (gstep (pc_delay P) (p_buf s) (RRead nevs)); inversion H; subst; clear H; [|constructor; assumption].
+      constructor; cbn; try assumption.
+      + unfold kqueue_ok. rewrite E. now apply Forall_skipn'.
+      + intros i x Hin. apply in_app_iff in Hin as [Hin|Hin]; [eauto|].
+        eapply number_in in Hin; [|exact En]. rewrite Forall_forall in Hevs. now apply Hevs.
+    - destruct (p_stopped s); [inversion H; subst; constructor; assumption|].
+      repeat match type of H with
+             | match ?x with Some _ => _ | None => _ end = _ =>
+               let E := fresh "E" in destruct x eqn:E; [|inversion H; subst; constructor; assumption]
+             | match ?x with [] => _ | _ :: _ => _ end = _ =>
+               destruct x; [inversion H; subst; constructor; assumption|]
+             end.
+      match type of H with context [emit_filtered ?F ?fu ?re ?wp ?ct ?it] =>
+        destruct (emit_filtered F fu re wp ct it) as [evs stop] eqn:Eem end.
+      inversion H; subst; clear H. constructor; cbn; try assumption.
+      intros e Hin. apply in_app_iff in Hin as [Hin|Hin]; [eauto|].
+      unfold emit_filtered in Eem. inversion Eem; subst; clear Eem.
+      apply in_flat_map in Hin as [e' [Hin He]]. unfold queue_event in He.
+      destruct (accepts (pc_filter P) (ev_cls e')); [|contradiction]. destruct He as [<-|[]].
+      eapply (emit_paths root Hne Hsep) in Hin.
+      + destruct Hin as [Hin|[Hin _]]; [left; exact Hin | right; exact Hin].
+      + intros r Hr. eapply item_to_emit_raws in Hr as [ix Hix]; [|eassumption].
+        eapply raw_ok_rooted; eauto.
+      + intros pp. now apply content_wf.
+    - destruct (gstep (pc_delay P) (p_buf s) (Q (Tick d))); inversion H; subst; constructor; assumption.
+  Qed.
+
+  Theorem prun_inv : forall h s acc s' obs,
+    PInv s -> (forall o, In (AOp o) h -> op_names_ok o) -> prun P s h acc = Done (s', obs) -> PInv s'.
+  Proof.
+    induction h as [|a h IH]; intros s acc s' obs Hi Hh H; cbn [prun] in H.
+    - now inversion H; subst.
+    - destruct (pstep P s a) as [[s1 o1]|] eqn:E; [|discriminate].
+      eapply IH; [| | exact H].
+      + eapply pstep_inv; [exact Hi | | exact E]. intros o ->. apply Hh. left. reflexivity.
+      + intros o Ho. apply Hh. right. exact Ho.
+  Qed.
+
+  Theorem pipeline_paths w s0 h s obs :
+    fs_names_ok (w_fs w) -> (forall o, In (AOp o) h -> op_names_ok o) ->
+    pinit P w = Some s0 -> prun P s0 h [] = Done (s, obs) ->
+    (forall i x, In (i, x) (p_tbl s) -> rooted root (r_path x)) /\
+    (forall e, In e (p_out s) -> out_ok e).
+  Proof.
+    intros Hw Hh H0 H. apply pinit_inv in H0; [|exact Hw].
+    destruct (prun_inv h s0 [] s obs H0 Hh H) as [_ _ _ I4 I5]. split; [|exact I5].
+    intros i x Hin. eapply raw_ok_rooted; eauto.
+  Qed.
+End PipeInv.
